@@ -880,6 +880,74 @@ def carrier_rng(ctx, runner, exe):
                 found = True
                 ctx.violation('Law:random-stream', 'after %s the generator state is %s, the model of law_uniform says %s' % (c[1][:k + 1], got, want),
                               {'case': sx_str(c), 'op': k}); break
+    # both styles, repeated seeds, seeded procedures of the library: what follows a positive seed (or a seeded procedure)
+    # in a history, against the same calls in a fresh process put in the same style
+    SEEDS = [7, 7, 7, 12345, 43241421, 43241421, 2000000000]
+    def op2():
+        u = rng.random()
+        if u < .22: return [0, rng.choice(SEEDS + [0, -3])]
+        if u < .45: return [rng.choice([1, 2, 4])]
+        if u < .50: return [3, 0, rng.randint(5, 40)]
+        if u < .62: return [5, rng.randint(0, 1)]
+        if u < .72: return [6, rng.randint(5, 12), rng.choice(SEEDS)]
+        if u < .80: return [7, rng.randint(3, 8), rng.choice(SEEDS)]
+        if u < .90: return [8, rng.randint(2, 5), rng.choice(SEEDS)]
+        return [9, rng.randint(2, 5), rng.choice(SEEDS)]
+    hist = load_corpus(ctx, 62)
+    # directed: the same seed twice around draws, in each style; the initial value of Random_value as a seed; seeded procedures twice
+    for style in (0, 1):
+        for sd in (7, 43241421):
+            hist.append([62, [[5, style], [0, sd], [2], [2], [0, sd], [2], [2]]])
+            hist.append([62, [[5, style], [0, sd], [0, sd], [1], [0, sd], [1]]])
+            for pr in (6, 7, 8, 9):
+                hist.append([62, [[5, style], [pr, 6, sd], [pr, 6, sd]]])
+                hist.append([62, [[5, style], [0, sd], [pr, 6, sd], [1], [pr, 6, sd]]])
+    for _ in range(150 if quick else 3000):
+        hist.append([62, [op2() for _ in range(rng.randint(3, 12))]])
+    pairs = []
+    for c in hist:
+        ops = c[1]
+        cuts = [k for k, o in enumerate(ops) if (o[0] == 0 and o[1] > 0) or o[0] in (6, 7, 8, 9)]
+        if not cuts: continue
+        k = cuts[-1] if rng.random() < .5 else rng.choice(cuts)
+        style = 1
+        for o in ops[:k]:
+            if o[0] == 5: style = o[1]
+        pairs.append((c, [62, [[5, style]] + ops[k:]], k))
+    rc, ra = run_impl(ctx, exe, write_cases(ctx, 'rng3a', [a for a, b, k in pairs]))
+    rc, rb = run_impl(ctx, exe, write_cases(ctx, 'rng3b', [b for a, b, k in pairs]))
+    OPN = {0: 'law_set_random_seed', 1: 'law_uniform', 2: 'law_gaussian', 3: 'law_int_uniform', 4: 'law_exponential', 5: 'law_set_old_style',
+           6: 'VH::sampleRanks', 7: 'law_set_random_seed+law_random_path', 8: 'Db::createFillRandom', 9: 'Db::addColumnsRandom'}
+    pretty = lambda ops: ['%s(%s)' % (OPN[o[0]], ', '.join(str(x) for x in o[1:])) for o in ops]
+    best = {}
+    for (a, b, k), x, y in zip(pairs, ra, rb):
+        ctx.count(sx_str(a)[:1200], True); ctx.dist('rng_two_styles')
+        if x[k:] != y[1:]:
+            first = next(i for i in range(len(y) - 1) if k + i >= len(x) or x[k + i] != y[1 + i])
+            o = a[1][k + first]
+            style = b[1][0][1]
+            for q in a[1][k:k + first + 1]:
+                if q[0] == 5: style = q[1]
+            key = 'Law:%s-depends-on-history:%s-style' % (OPN[a[1][k][0]].split('+')[0], 'old' if style else 'new')
+            # shrink: drop calls of the prefix while the difference stays
+            cur = list(a[1]); kk = k
+            for _ in range(20):
+                done = True
+                for j in range(kk):
+                    cand = cur[:j] + cur[j + 1:]
+                    st2 = 1
+                    for q in cand[:kk - 1]:
+                        if q[0] == 5: st2 = q[1]
+                    if st2 != (lambda l: [z[1] for z in l if z[0] == 5][-1] if any(z[0] == 5 for z in l) else 1)(cur[:kk]): continue
+                    rc2, r1 = run_impl(ctx, exe, write_cases(ctx, 'rng3s', [[62, cand], [62, [[5, st2]] + cand[kk - 1:]]]))
+                    if len(r1) == 2 and r1[0][kk - 1:] != r1[1][1:]:
+                        cur = cand; kk -= 1; done = False; break
+                if done: break
+            if key not in best or len(cur) < len(best[key][0]):
+                best[key] = (cur, kk, 'after the calls %s, %s gives other values than in a fresh process in the same style' % (pretty(cur[:kk]), pretty(cur[kk:])))
+    for key, (ops, kk, text) in sorted(best.items()):
+        found = True
+        ctx.violation(key, text, {'case': sx_str([62, ops]), 'history': pretty(ops), 'observed_from': kk})
     # new-style generator (std::mt19937): the stream after a positive seed, with and without a prefix (impl against impl)
     cases2 = []
     for _ in range(60 if quick else 600):
